@@ -162,6 +162,16 @@ func mergeToWriter(segments []*SegmentBase, drops []*roaring.Bitmap,
 		// the ids of all remaining fields.
 		fieldsInv = fieldsInv[:1]
 		fieldsMap = mapFields(fieldsInv)
+
+		// the callers still get one map per input segment, with every
+		// document marked as dropped
+		newDocNums = make([][]uint64, len(segments))
+		for segI, segment := range segments {
+			newDocNums[segI] = make([]uint64, segment.numDocs)
+			for docNum := range newDocNums[segI] {
+				newDocNums[segI][docNum] = docDropped
+			}
+		}
 	}
 
 	// we can persist the fields section index now, this will point
